@@ -399,12 +399,13 @@ type c09Oracle struct {
 	// jailed-until per address as the statement defines it, kept by the oracle itself: the block time of the
 	// downtime jailing plus the jail duration in force then; year 9999 after a conviction; the epoch before
 	// any jailing. The stored signing info is not consulted (it is part of what is being judged).
-	until    map[string]time.Time
-	jailings int
-	refused  int
-	accepted int
-	stopped  bool
-	aborted  bool
+	until       map[string]time.Time
+	jailedModel map[string]bool
+	jailings    int
+	refused     int
+	accepted    int
+	stopped     bool
+	aborted     bool
 }
 
 func (o *c09Oracle) after(ch *chain, ci *callInfo) *Violation {
@@ -420,6 +421,28 @@ func (o *c09Oracle) after(ch *chain, ci *callInfo) *Violation {
 	before := ci.Before
 	where := fmt.Sprintf("%s at height %d (block %d tx %d)", ci.Kind, ci.Height, ci.BlockIx, ci.TxIx)
 	minStake := ch.posParamInt64(before, "StakeMinimum")
+	// the jailed flag as the oracle knows it: raised by a jailing (or on a record that is created jailed), lowered
+	// only by an accepted unjail of that validator, forgotten when the record is removed
+	unjailedNow := ""
+	if m, ok := ci.Built.msgUnjail(); ok && ci.Kind == "tx" && ci.Deliver.Code == 0 {
+		unjailedNow = hex.EncodeToString(m.ValidatorAddr)
+	}
+	for a := range o.jailedModel {
+		if _, ok := after.Vals[a]; !ok {
+			delete(o.jailedModel, a)
+		}
+	}
+	for a, av := range after.Vals {
+		bv, had := before.Vals[a]
+		switch {
+		case av.Jailed && (!had || !bv.Jailed):
+			o.jailedModel[a] = true
+		case a == unjailedNow:
+			delete(o.jailedModel, a)
+		case o.jailedModel[a] && !av.Jailed:
+			return violf("C09/jailed-flag-cleared-without-unjail", "%s: validator %s was jailed and is no longer marked jailed although no unjail request of it was accepted (status %v, stake %s)", where, a, av.Status, av.StakedTokens)
+		}
+	}
 	switch ci.Kind {
 	case "begin":
 		// jailings, and convictions for double signing
@@ -651,7 +674,7 @@ func execC09(prog interface{}, c *Case) *Violation {
 	if v != nil || ch == nil {
 		return v
 	}
-	o := &c09Oracle{c: c, justUnjailed: map[string]bool{}, convicted: map[string]bool{}, until: map[string]time.Time{}}
+	o := &c09Oracle{c: c, justUnjailed: map[string]bool{}, convicted: map[string]bool{}, until: map[string]time.Time{}, jailedModel: map[string]bool{}}
 	if v := ch.run(o); v != nil {
 		return v
 	}
@@ -682,7 +705,7 @@ func init() {
 	c06Profile := &histProfile{MaxBlocks: 24, MinBlocksOf: []int{3, 8, 14}, Evidence: 5, Missed: 2, Restart: 0, MaxTxs: 5, FixedMin: true, Scripts: true, Batches: true, Anchor: true, OwnerBias: 3,
 		TxKinds: []string{"stake", "stake", "stake", "unstake", "unstake", "unstake", "unjail", "burn", "burn", "send", "award", "param", "param"}, Windows: []int64{10, 10, 14}}
 	c09Profile := &histProfile{MaxBlocks: 30, MinBlocksOf: []int{6, 12, 20}, Evidence: 5, Missed: 1, Restart: 0, MaxTxs: 4, Scripts: true, Batches: true, Anchor: true, OwnerBias: 3,
-		TxKinds: []string{"unjail", "unjail", "unjail", "stake", "unstake", "burn", "send", "param"}, Windows: []int64{10, 10, 10},
+		TxKinds: []string{"unjail", "unjail", "unjail", "stake", "unstake", "burn", "send", "param"}, Windows: []int64{10, 10, 10}, MinSigned: []string{"0.5", "0.5", "0.9", "1", "0.05"},
 		ScriptTemplates: [][]string{
 			{"downtime", "unjail!", "wait", "unjail"},
 			{"downtime", "stake!", "unjail!", "wait", "unjail"},
